@@ -143,6 +143,15 @@ func (t *tr) evalBinary(e *ast.BinaryExpr) *val {
 			}
 			return &val{t: tBool, e: t.relInt(e.Op, x, y)}
 		}
+		if x.t.k == kBool && y.t.k == kBool && (e.Op == token.NEQ || e.Op == token.EQL) {
+			// a != b on booleans, in the spelled-out form (a && !b) || (!a && b)
+			a, b := par(x.e), par(y.e)
+			ne := "(" + a + " && (negb " + b + ")) || ((negb " + a + ") && " + b + ")"
+			if e.Op == token.EQL {
+				return &val{t: tBool, e: "negb (" + ne + ")"}
+			}
+			return &val{t: tBool, e: ne}
+		}
 		t.fail("unsupported comparison %s (operand types %s, %s)", exprText(e), x.t, y.t)
 	case token.ADD, token.SUB, token.MUL, token.QUO, token.REM:
 		x, y := t.eval(e.X), t.eval(e.Y)
